@@ -104,7 +104,16 @@ func starDriver(name string, gen func(cfg Config, r *starRun, rng *rand.Rand)) {
 func randSlice(rng *rand.Rand, n, hi int) []int {
 	out := make([]int, rng.Intn(n+1))
 	for i := range out {
-		out[i] = 1 + rng.Intn(hi)
+		out[i] = rng.Intn(hi + 1)
+	}
+	return out
+}
+
+// bigSlice: exactly n elements (sizes beyond the usual small-input thresholds 32, 64, 256)
+func bigSlice(rng *rand.Rand, n, hi int) []int {
+	out := make([]int, n)
+	for i := range out {
+		out[i] = rng.Intn(hi + 1)
 	}
 	return out
 }
@@ -112,7 +121,7 @@ func randSlice(rng *rand.Rand, n, hi int) []int {
 func init() {
 	keyFns := []string{"id", "mod2", "div2", "const0"}
 	preds := []string{"isOdd", "gt1", "true", "false", "eq2"}
-	vals := []int{1, 2, 3}
+	vals := []int{0, 1, 2} // the zero value is a value like any other
 
 	// ------------------------------------------------------------------ C11
 	starDriver("sliceset", func(cfg Config, r *starRun, rng *rand.Rand) {
@@ -172,6 +181,25 @@ func init() {
 			r.call(hop("DifferenceBy", f, nil, a, b))
 			r.call(hop("Without", "", nil, a, c))
 		}
+		// large inputs: code paths that only switch on beyond a size threshold
+		for _, n := range []int{33, 40, 65, 130, 300} {
+			for rep := 0; rep < 3; rep++ {
+				a, b, c := bigSlice(rng, n, 9+n/4), bigSlice(rng, n+rep, 9+n/4), bigSlice(rng, n/2, 9+n/4)
+				small := randSlice(rng, 6, 9)
+				f := keyFns[rng.Intn(len(keyFns))]
+				for _, x := range [][2][]int{{a, b}, {small, b}, {a, small}} {
+					r.call(hop("Difference", "", nil, x[0], x[1]))
+					r.call(hop("DifferenceBy", f, nil, x[0], x[1]))
+					r.call(hop("Without", "", nil, x[0], x[1]))
+					r.call(hop("Intersection", "", nil, x[0], x[1], c))
+					r.call(hop("IntersectionBy", f, nil, x[0], x[1], c))
+				}
+				r.call(hop("Unique", "", nil, a))
+				r.call(hop("UniqueBy", f, nil, a))
+				r.call(hop("Duplicate", "", nil, a))
+				r.call(hop("DuplicateWithIndex", "", nil, a))
+			}
+		}
 	})
 
 	// ------------------------------------------------------------------ C12
@@ -227,6 +255,18 @@ func init() {
 				r.call(hop("Unzip", "", nil, m...))
 			}
 		}
+		// larger squares with distinct entries (a transpose that only goes wrong from some size on)
+		for n := 4; n <= 9; n++ {
+			m := make([][]int, n)
+			for i := range m {
+				m[i] = make([]int, n)
+				for j := range m[i] {
+					m[i][j] = i*n + j
+				}
+			}
+			r.call(hop("Zip", "", nil, m...))
+			r.call(hop("Unzip", "", nil, m...))
+		}
 		for _, n := range nests(3, nl) {
 			o := hop("Flatten", "", nil)
 			o.X = n
@@ -248,6 +288,29 @@ func init() {
 			r.call(hop("Shuffle", "", nil, a))
 			r.call(hop("Reverse", "", nil, a))
 			r.call(hop("ForEachRight", "", nil, a))
+		}
+		for _, n := range []int{33, 65, 130, 300} {
+			a := bigSlice(rng, n, 9)
+			for _, size := range []int{1, 7, 32, 33, n - 1, n, n + 1} {
+				r.call(hop("Chunk", "", []int{size}, a))
+			}
+			for _, d := range []int{-n - 1, -n, -33, -1, 0, 1, 32, 33, n, n + 1} {
+				r.call(hop("Drop", "", []int{d}, a))
+			}
+			for _, p := range preds {
+				for _, fn := range []string{"Partition", "Filter", "Reject", "DropWhile", "DropRightWhile"} {
+					r.call(hop(fn, p, nil, a))
+				}
+			}
+			for _, f := range keyFns {
+				r.call(hop("GroupBy", f, nil, a))
+				r.call(hop("Map", f, nil, a))
+			}
+			for _, fn := range []string{"Reverse", "Shuffle", "ForEach", "ForEachRight"} {
+				r.call(hop(fn, "", nil, a))
+			}
+			r.call(hop("Reduce", "", []int{0}, a))
+			r.call(hop("Merge", "", nil, a, bigSlice(rng, n, 9)))
 		}
 	})
 }
